@@ -320,6 +320,10 @@ def run(F, R, tier):
             n_present = 0
             for q in tab.ok():
                 if SR.variant(q, mt) != "Some":
+                    # establishment: an accepting path has looked at the member (absent), it has not merely failed to reach its check
+                    r3.require(SR.variant(q, mt) == "None", (fn, "unexamined", member),
+                               "%s.%s is never examined on an accepting path of check_consistency (a value there that disagrees with `%s` is silently dropped) — path: %s" % (
+                                   inner, member, claim, q.describe()[:200]))
                     continue
                 n_present += 1
                 mp = ("payload", mt, "Some", 0)
@@ -400,6 +404,7 @@ def run(F, R, tier):
                 seen.add("iss-err")
             if ok:
                 r4.require(bool(ti) and q.succeeded(ti[0]) is True, (fn, "issuance-propagated"), "issuance date is not to_issuance_date()?")
+                r4.require(q.variant.get(EXP) in ("Some", "None"), (fn, "exp-from_unix"), "the conversion succeeds without having examined the exp claim")
         r4.site("try_into_credential: exp → from_unix ✓ / error propagated; issuance date → to_issuance_date()?: %s" % sorted(seen))
         r4.require({"exp-ok", "exp-err", "iss-err"} <= seen or not tab.paths, (fn, "exp-from_unix"), "the date conversions of try_into_credential do not show the rows Ok / exp error / issuance error: %s" % sorted(seen))
     # no other way from i64 to Timestamp in these modules (unwrap of from_unix etc.)
